@@ -55,6 +55,11 @@ var c20DrvScripts = []string{
 	`return (1;`,
 	``,
 	`return keys(Nested);`,
+	`return id;`,
+	`return [Big, Age, Nested.n];`,
+	"return len(\"a\r\nb\");",
+	"x = \"line1\\\r\nline2\";\r\nreturn len(x);\r\n",
+	"return \"\r\n\" == \"\n\";",
 	`return "100%";`,
 	`return ["%d", "50%s", "%", "%%", "%!t"];`,
 	`return Pct;`,
@@ -77,6 +82,7 @@ var c20DrvLoops = []string{
 }
 
 var c20DrvDocs = []string{
+	`{"id":9007199254740993,"Big":12345678901234567890,"Items":[9007199254740993,1],"Age":4611686018427387905,"Name":"n","Nested":{"n":9007199254740993}}`,
 	`{"Name":"Steve %s","Age":44,"Items":[1,2,3],"Pct":"95% of %d","Score":2.5,"Nested":{"%v":"%x"}}`,
 	`{"Name":"Steve","Age":44,"Items":[1,2,3],"Flag":true,"Nothing":null,"Score":2.5,"Nested":{"Inner":{"Deep":"down"},"b":1}}`,
 	`{"Name":"bob","Age":3,"Items":[],"Flag":false,"Score":-1,"Nested":{}}`,
